@@ -373,7 +373,7 @@ pub fn replay_fun(scenario: &str, input: &Value) -> Vec<Finding> {
 }
 
 pub fn plan(quick: bool) -> Plan {
-    let (mm, mt, mw) = if quick { (5, 5, 2) } else { (7, 6, 3) };
+    let (mm, mt, mw) = if quick { (6, 6, 3) } else { (8, 7, 3) };
     Plan {
         property: "C14".into(),
         rule: format!("every mask of length <= {} over {{a,b,*,?}} against every text of length <= {} over {{a,b,é}} (plus named corner cases) through the real match_wildcard, compared with a recursive reference glob, each call under catch_unwind; every string <= 6 over {{n,!,@,*}} through normalize_sourcemask vs the three completion rules; wire conformance: every mask <= {} over {{a,*,?}} plus 10 multi-part masks, for 8 callers (+b, +e, +I, speaking, WHO, WHOIS, operator mask, user mask) and 4 identities, in a real server world", mm, mt, mw),
